@@ -21,13 +21,13 @@ class Harness:
             try:
                 p = subprocess.run([self.exe], input=data.encode(), stdout=subprocess.PIPE, stderr=subprocess.PIPE, timeout=timeout, env=e)
             except subprocess.TimeoutExpired as ex:
-                lines = (ex.stdout or b"").decode("utf-8", "replace").splitlines()
+                lines = (ex.stdout or b"").decode("utf-8", "replace").split("\n")
                 got = [json.loads(l) for l in lines if l.strip()]
                 out.extend(got)
                 out.append({"hang": True})
                 i += len(got) + 1
                 continue
-            lines = p.stdout.decode("utf-8", "replace").splitlines()
+            lines = p.stdout.decode("utf-8", "replace").split("\n")
             got = []
             for l in lines:
                 try:
